@@ -33,7 +33,10 @@ Definition join_try (c : jcfg) (w : world) (lowest : N) (e : event) : option (li
     match (if j_mode c =? 2
            then match j_cursor c with Some cu => hub_through_cursor (h_f (w_hub w)) n cu | None => BErr end
            else blocks_from_num (h_f (w_hub w)) n) with
-    | BOk evs => if h_ready (w_hub w) then Some evs else None
+    | BOk evs =>
+        (* fix: outside target mode the join is made on the identity of the file block *)
+        let same := (j_mode c =? 2) || match evs with b0 :: _ => bid (eblk b0) =? bid (eblk e) | [] => false end in
+        if h_ready (w_hub w) && same then Some evs else None
     | _ => None
     end
   else None.
@@ -129,7 +132,7 @@ Definition C07_live_phase_fifo : Prop :=
 
 (* number mode, no pauses, step filter letting new+irreversible through, stop block not below the
    join: the file source delivers D = pre ++ bn :: post, bn the first block numbered >= lowest, and
-   the ready hub serves bn's number.  Then exactly the canonical blocks in [start, number of bn) are
+   the ready hub serves bn's number with a burst that starts with bn itself (join on identity).  Then exactly the canonical blocks in [start, number of bn) are
    delivered from the files, bn is not, and the stream continues with the hub's burst for that
    number (whose first event carries that number: C07_burst_starts_at) *)
 Definition C07_num_handoff_partial : Prop :=
@@ -141,6 +144,8 @@ Definition C07_num_handoff_partial : Prop :=
     (j_stop c = 0 \/ bnum bn <= j_stop c) ->
     h_ready (w_hub w) = true ->
     blocks_from_num (h_f (w_hub w)) (bnum bn) = BOk burst ->
+    (* the join is made on identity: the hub's canonical block of that height is bn itself *)
+    (exists b0 tl, burst = b0 :: tl /\ bid (eblk b0) = bid bn) ->
     file_phase fuel c w lowest (map (file_event SNewIrr) (pre ++ bn :: post)) fend count [] out =
       live_phase fuel c w burst (count + N.of_nat (length pre)) [] (out ++ map (file_event SNewIrr) pre) /\
     pre = filter (fun b => (start <=? bnum b) && (bnum b <? bnum bn)) merged.
